@@ -17,6 +17,9 @@ model's list of observations for history `i` under accrual oracle `orc`;
 * `C09_full` (all clauses, all histories) is FALSE for the code as it is:
   `C09_full_fails` exhibits the two recorded findings. `C09_partial` proves all
   clauses under the explicit hypothesis `calm`.
+* `allowed_safe`, `allowed_holds_partial` — the same for every output the model
+  relation `allowed` admits (`clauses_of_allowed`: no clause depends on the order
+  of what Go takes out of maps); `model_allowed`: the relation is inhabited.
 * `alert_once` — an expired metric, then any number of checks: exactly one alert,
   forgotten by the second visit, silent afterwards.
 * `window_all_spec` — wrap-around of the ring.
@@ -130,6 +133,31 @@ theorem alert_once (P : Params) (hmax : P.maxA = 1) (ps0 : Peerset) (h : List Op
   refine ⟨h1, fun hlen => ?_⟩
   have := (h2 hlen).1
   simp [latestOf, this]
+
+/-- The model's own observations are among those it allows. -/
+theorem model_allowed (i : Input) (orc : Nat → Nat → Nat → Bool) : allowed i orc (run i orc) = true :=
+  sameAll_refl _
+
+/-- The property checker gives the same verdicts on every output the model allows
+    (the order of alerts / metrics / forgotten pairs is irrelevant to every clause). -/
+theorem clauses_of_allowed (i : Input) (orc : Nat → Nat → Nat → Bool) (out : List Obs)
+    (h : allowed i orc out = true) : clauses i orc out = clauses i orc (run i orc) :=
+  (clausesFrom_same i.cap orc i.ops i.ops 0 _ _ _ h).symm
+
+/-- C09, safety clauses, for every history and EVERY output the model relation admits. -/
+theorem allowed_safe (i : Input) (orc : Nat → Nat → Nat → Bool) (out : List Obs) (hw : wf i = true)
+    (hmax : i.maxA = 1) (h : allowed i orc out = true) :
+    ∀ c ∈ clauses i orc out, c.1 ∈ safeNames → c.2 = true := by
+  rw [clauses_of_allowed i orc out h]
+  exact safety_all_histories i orc hw hmax
+
+/-- C09, all clauses, for calm histories and every output the model relation admits. -/
+theorem allowed_holds_partial (i : Input) (orc : Nat → Nat → Nat → Bool) (out : List Obs) (hw : wf i = true)
+    (hmax : i.maxA = 1) (hcalm : calm i orc = true) (h : allowed i orc out = true) :
+    holds i orc out = true := by
+  unfold holds
+  rw [clauses_of_allowed i orc out h]
+  exact C09_partial i orc hw hmax hcalm
 
 /-! ### the publish loops (third sentence) -/
 
